@@ -90,6 +90,10 @@ def run(tier, rep):
         # in every stream: an MSM frame at the edge of the masks (satellite ID 64 and signal ID 32 set / no cells)
         e1 = edgepool[(s * 7) % len(edgepool)]
         items.insert(rnd.randrange(len(items) + 1), ("frame", frame_of(e1), e1))
+        # in every stream: a well-formed frame (right checksum) of a defined type whose payload is too
+        # short to decode: with parsing on it is reported / dropped under EVERY validate setting
+        u5 = bytes([0x3E, 0xD0]) + bytes(rnd.randrange(256) for _ in range(rnd.randint(2, 9)))
+        items.insert(rnd.randrange(len(items) + 1), ("undecodable", frame_of(u5), u5))
         # in every stream: two LARGE frames (> 300 and >= 1000 payload bytes), one of them with a wrong checksum
         b1, b2 = bigpool[s % len(bigpool)], bigpool[-1 - (s % 2)]
         items.insert(rnd.randrange(len(items) + 1), ("frame" if s % 2 else "badcrc", frame_of(b1) if s % 2 else wrong_crc(rnd, frame_of(b1)), b1))
@@ -125,6 +129,7 @@ def run(tier, rep):
         io0 = [(e["op"], e["n"], len(e["data"])) for e in tr.traces[base - 1]["ev"] if e["op"] != "call"]
         valid = [i[1] for i in items if i[0] == "frame"]
         anyf = [i[1] for i in items if i[0] in ("frame", "badcrc")]
+        rawf = [i[1] for i in items if i[0] in ("frame", "badcrc", "undecodable")]     # parsing off: every frame-shaped item
         for (v, p, q, _lab), tid in g.items():
             m = tr.meta[tid]
             facts = {"engine": "framer", "validate": v, "parsed": p, "quit": q}
@@ -132,7 +137,7 @@ def run(tier, rep):
             if io != io0:
                 rep.reject("IoIndependentOfOptions", facts, {**tr.replay_of(tid, verdicts[tid]), "first_diff": next((i for i, (a, b) in enumerate(zip(io, io0)) if a != b), min(len(io), len(io0)))})
             got = [bytes(r[0]) for r in tr.results[tid]]
-            want = anyf if (not p or v == 0) else valid
+            want = rawf if not p else anyf if v == 0 else valid
             if got != want:
                 rep.reject("ParsedOffSameRaw" if not p else "ValidateOffAcceptsWrongCrc" if v == 0 else "RawSequence", facts,
                            {**tr.replay_of(tid, verdicts[tid]), "delivered": len(got), "expected": len(want)})
